@@ -1,4 +1,6 @@
 import Audit.Tool
 import Uds.Props.C06
 import Uds.Props.C06Call
+import Uds.Props.CallUnify
 #audit Uds.Props.C06
+#audit Uds.Props.CallUnify
